@@ -11,6 +11,7 @@ process starts (tensora reads it at import).
 
 from __future__ import annotations
 
+import itertools
 import json
 import os
 import random
@@ -117,8 +118,23 @@ def main():
             idx = sorted(sizes_list[0].keys())
             sizes_list = [{i: rng.choice([3, 4, 5]) for i in idx} for _ in range(max(2, n_inputs))]
         added = False
-        for sizes in sizes_list:
-            ins = S.make_inputs(tpl, sizes, rng)
+        planned = [(sizes, None) for sizes in sizes_list]
+        if pno < len(cfg.get("priority", [])):
+            # "gappy" inputs: operand number g stores only the slice with the LAST first coordinate (every
+            # other row/fibre of it is empty), all other operands are full -- loops that run after a sparse
+            # operand is exhausted, rows fed only by the other addend
+            sizes = {i: rng.choice([3, 4]) for i in sorted(sizes_list[0].keys())}
+            base = S.make_inputs(tpl, sizes, rng)
+            for g, gname in enumerate(list(base)[:2]):
+                ins_g = {}
+                for n, v in base.items():
+                    cells = list(itertools.product(*[range(d) for d in v["dims"]]))
+                    if n == gname and v["dims"]:
+                        cells = [c for c in cells if c[0] == v["dims"][0] - 1]
+                    ins_g[n] = {"dims": v["dims"], "entries": {c: float(1 + (k % 4)) for k, c in enumerate(cells)}}
+                planned.append((sizes, ins_g))
+        for sizes, preset in planned:
+            ins = preset if preset is not None else S.make_inputs(tpl, sizes, rng)
             if not ins and S.tensor_occurrences(tpl):
                 continue
             if float_stream:
